@@ -66,6 +66,15 @@ def check(ctx):
         # the failing branch raises a (non-belief) error before anything else
         raises = [r for r in b.nodes('raise') if g.dominates(n.id, r.id) and
                   not r.data.get('belief')]
+        if not raises:
+            # the rejected index is handed on (first offending one, say) and raised
+            # about later: no consistent way from the rejection to a restore that
+            # avoids the raise
+            later = [r.id for r in b.nodes('raise') if not r.data.get('belief') and
+                     r.id in g.reachable_from([n.id])]
+            if later and all(feasible_path(b, [n.id], m.id, blocked=later) is None
+                             for m in moves):
+                raises = later
         ctx.ob('R13.1', 'an out-of-range index raises', bool(raises), node=n,
                message='an index outside the list does not abort the whole selection')
     bad_nodes = [n for n, c, eff in accept if not eff]
